@@ -124,6 +124,22 @@ def rule_a(ctx: Context, R: Reporter):
                 R.check("C07.a", "a particle field is not moved with a private index", False, s.func, m.stmt,
                         msg=f"{s.func.short}: '{next(iter(of))}' is moved with `{o.index_name}` while {sorted(s.fields())} are moved with `{s.index_name}`",
                         key=f"split-index:{s.key()}:{next(iter(of))}")
+    # a row-to-row copy between two particle records that carries one field only (x_prime[m] = self.x[m]): the
+    # record that receives the rows is no longer the transform / likelihood of its own u
+    in_sites = {id(m_.stmt) for s_ in sites for m_ in s_.moves}
+    for fi in {s_.func.qualname: s_.func for s_ in sites}.values():
+        for o in discover_sites(ctx, fi):
+            pf = o.fields() & set(PARTICLE_FIELDS)
+            if len(pf) != 1:
+                continue
+            for m_ in o.moves:
+                if id(m_.stmt) in in_sites:
+                    continue
+                if m_.src_tag in PARTICLE_FIELDS and m_.dst_tag == m_.src_tag and m_.src_index is not None and m_.dst_index is not None:
+                    R.check("C07.a", "rows are copied between particle records as whole records", False, fi, m_.stmt,
+                            msg=f"{fi.short}: `{m_.text[:70]}` copies rows of '{m_.src_tag}' alone from one particle record into another (index `{o.index_name}`): the receiving record keeps "
+                                f"its own {sorted(set(REQUIRED) - pf)} for those rows, so its x is no longer the prior transform of its u / its logL no longer the likelihood at its x",
+                            key=f"partial-row-copy:{fi.short}:{m_.src_tag}")
     # state writes of the blobs: not under an inverted have-blobs guard
     for a in ctx.state.accesses:
         if a.mode != "write" or a.key != "blobs" or a.func is None:
